@@ -204,7 +204,8 @@ func (p *Eflo) UnAssignNIPv4(eniID string, ips []netip.Addr, mac string) error {
 			return err
 		}
 		if len(content.Data) == 0 {
-			return nil
+			// already gone, go on with the rest of the batch
+			continue
 		}
 
 		err = p.api.UnassignLeniPrivateIPAddress(p.ctx, eniID, content.Data[0].IpName)
